@@ -1,6 +1,7 @@
 package props
 
 import (
+	"encoding/base64"
 	"encoding/json"
 	"fmt"
 	"net/url"
@@ -26,7 +27,8 @@ type c20Case struct {
 	Perturb uint64         `json:"perturb_seed"`
 }
 
-var c20Steps = []string{"login-ok", "login-bad", "visit-full", "visit-none", "logout", "recover", "register", "otp-login", "remember", "otp-add", "login-ok"}
+var c20Steps = []string{"login-ok", "login-bad", "visit-full", "visit-none", "logout", "recover", "register", "otp-login", "remember", "otp-add", "login-ok",
+	"recover-bad", "confirm-bad", "login-unknown", "get-pages", "register-dup", "recover-unknown"}
 
 type c20Client struct {
 	w    *harness.World
@@ -140,6 +142,29 @@ func (c *c20Client) run(script []string) {
 				c.do(name+".confirm", "GET", P("/confirm"), nil, url.Values{"cnf": {tok}})
 			}
 			c.do(name+".login", "POST", P("/login"), map[string]string{"email": newPID, "password": "Passw0rd!N"}, nil)
+		case "recover-bad":
+			// refused recovery tokens: wrong size, unknown selector, bad base64
+			for k, tok := range []string{"QUJD", base64.URLEncoding.EncodeToString([]byte(fmt.Sprintf("%064d", c.i))), "***"} {
+				c.do(fmt.Sprintf("%s.%d", name, k), "POST", P("/recover/end"), map[string]string{"token": tok, "password": "Passw0rd!Q", "confirm_password": "Passw0rd!Q"}, nil)
+			}
+		case "confirm-bad":
+			for k, tok := range []string{"QUJD", base64.URLEncoding.EncodeToString([]byte(fmt.Sprintf("%064d", c.i))), "***"} {
+				if w.Cfg.JSON {
+					c.do(fmt.Sprintf("%s.%d", name, k), "GET", P("/confirm"), map[string]string{"cnf": tok}, nil)
+				} else {
+					c.do(fmt.Sprintf("%s.%d", name, k), "GET", P("/confirm"), nil, url.Values{"cnf": {tok}})
+				}
+			}
+		case "login-unknown":
+			c.do(name, "POST", P("/login"), map[string]string{"email": fmt.Sprintf("ghost%d@x.io", c.i), "password": "wrong-Pass1!"}, nil)
+		case "recover-unknown":
+			c.do(name, "POST", P("/recover"), map[string]string{"email": fmt.Sprintf("ghost%d@x.io", c.i)}, nil)
+		case "get-pages":
+			for _, pg := range []string{"/login", "/recover", "/register", "/otp/login", "/recover/end"} {
+				c.do(name+pg, "GET", P(pg), nil, nil)
+			}
+		case "register-dup":
+			c.do(name, "POST", P("/register"), map[string]string{"email": c.pid, "password": "Passw0rd!N", "confirm_password": "Passw0rd!N"}, nil)
 		case "otp-login":
 			otp := "0000-0000"
 			if len(c.otps) > 0 {
